@@ -140,7 +140,17 @@ def write_tum(path, traj):
             f.write(" ".join(repr(float(x)) for x in row) + "\n")
 
 
+_WORKDIRS = {}
+
+
 def workdir(name):
-    d = os.path.join(os.environ.get("VERIF_ROOT", "/verif"), ".work", name)
-    os.makedirs(d, exist_ok=True)
-    return d
+    """scratch directory private to this process (checks may run side by side); removed when the process ends"""
+    key = (name, os.getpid())
+    if key not in _WORKDIRS:
+        import atexit
+        import shutil
+        d = os.path.join(os.environ.get("VERIF_ROOT", "/verif"), ".work", "%s_%d" % (name, os.getpid()))
+        os.makedirs(d, exist_ok=True)
+        _WORKDIRS[key] = d
+        atexit.register(shutil.rmtree, d, True)
+    return _WORKDIRS[key]
